@@ -50,13 +50,14 @@ structure InstInv (c : Cfg) (now : Tick) (i : Inst) : Prop where
   prim : i.reasons ≠ [] → ∃ p ∈ i.reasons, p.primary = true
   cancIff : Reason.cancelled ∈ i.reasons ↔ i.cancelAt.isSome = true
   abanIff : Reason.abandoned ∈ i.reasons ↔ i.abandonAt.isSome = true
+  cancTo : i.cancelAt.isSome = true → c.timeout.isSome = true     -- no cancellation_timeout: never cancelled
 
 theorem InstInv.fresh (c : Cfg) (now t : Tick) : InstInv c now (Inst.fresh t) := by
-  refine ⟨?_, ?_, ?_, ?_, ?_, ?_, ?_, ?_, ?_⟩ <;> simp [Inst.fresh]
+  refine ⟨?_, ?_, ?_, ?_, ?_, ?_, ?_, ?_, ?_, ?_⟩ <;> simp [Inst.fresh]
 
 theorem InstInv.mono {c : Cfg} {now now' : Tick} {i : Inst} (h : InstInv c now i) (hle : now ≤ now') :
     InstInv c now' i := by
-  refine ⟨?_, h.flagged, h.unflagged, ?_, ?_, ?_, h.prim, h.cancIff, h.abanIff⟩
+  refine ⟨?_, h.flagged, h.unflagged, ?_, ?_, ?_, h.prim, h.cancIff, h.abanIff, h.cancTo⟩
   · intro w hw; exact Int.le_trans (h.whenLe w hw) hle
   · intro st hst
     obtain ⟨w, h1, h2, h3⟩ := h.kst st hst
@@ -87,7 +88,7 @@ theorem InstInv.set_plain {c : Cfg} {now : Tick} {i : Inst} (h : InstInv c now i
     (hp : r.primary = true ∨ ∃ p ∈ i.reasons, p.primary = true) :
     InstInv c now (i.set r now) := by
   have hwl := getD_when_le h
-  refine ⟨?_, ?_, ?_, ?_, ?_, ?_, ?_, ?_, ?_⟩
+  refine ⟨?_, ?_, ?_, ?_, ?_, ?_, ?_, ?_, ?_, (by rw [set_cancelAt]; exact h.cancTo)⟩
   · intro w hw
     rw [set_when] at hw
     cases hw
@@ -128,13 +129,13 @@ theorem InstInv.set_plain {c : Cfg} {now : Tick} {i : Inst} (h : InstInv c now i
 /-- DAEMON_CANCELLED + `task.cancel()`: allowed once the flag is at least `backoff` old. -/
 theorem InstInv.set_cancelled {c : Cfg} {now : Tick} {i : Inst} (h : InstInv c now i)
     (hp : ∃ p ∈ i.reasons, p.primary = true)
-    (hage : ∀ w, i.when = some w → w + c.b0 ≤ now) :
+    (hage : ∀ w, i.when = some w → w + c.b0 ≤ now) (hto : c.timeout.isSome = true) :
     InstInv c now { i.set .cancelled now with cancelAt := some (i.cancelAt.getD now) } := by
   obtain ⟨p, hp1, hp2⟩ := hp
   have hne : i.reasons ≠ [] := by intro h0; rw [h0] at hp1; cases hp1
   have hws := h.flagged hne
   obtain ⟨w, hw⟩ := Option.isSome_iff_exists.mp hws
-  refine ⟨?_, ?_, ?_, ?_, ?_, ?_, ?_, ?_, ?_⟩
+  refine ⟨?_, ?_, ?_, ?_, ?_, ?_, ?_, ?_, ?_, (fun _ => hto)⟩
   · intro w' hw'
     simp only [set_when, hw, Option.getD_some, Option.some.injEq] at hw'
     subst hw'; exact h.whenLe w hw
@@ -185,7 +186,7 @@ theorem InstInv.set_abandoned {c : Cfg} {now : Tick} {i : Inst} (h : InstInv c n
   have hne : i.reasons ≠ [] := by intro h0; rw [h0] at hp1; cases hp1
   have hws := h.flagged hne
   obtain ⟨w, hw⟩ := Option.isSome_iff_exists.mp hws
-  refine ⟨?_, ?_, ?_, ?_, ?_, ?_, ?_, ?_, ?_⟩
+  refine ⟨?_, ?_, ?_, ?_, ?_, ?_, ?_, ?_, ?_, (by simp only [set_cancelAt]; exact h.cancTo)⟩
   · intro w' hw'
     simp only [set_when, hw, Option.getD_some, Option.some.injEq] at hw'
     subst hw'; exact h.whenLe w hw
@@ -234,7 +235,7 @@ theorem InstInv.push_kstart {c : Cfg} {now : Tick} {i : Inst} (h : InstInv c now
   have hr1 : r ≠ .cancelled := by intro h0; subst h0; cases hr
   have hr2 : r ≠ .abandoned := by intro h0; subst h0; cases hr
   have h' := h.set_plain r hr1 hr2 (Or.inl hr)
-  refine ⟨h'.whenLe, h'.flagged, h'.unflagged, ?_, h'.canc, h'.aban, h'.prim, h'.cancIff, h'.abanIff⟩
+  refine ⟨h'.whenLe, h'.flagged, h'.unflagged, ?_, h'.canc, h'.aban, h'.prim, h'.cancIff, h'.abanIff, h'.cancTo⟩
   intro st hst
   simp only [List.mem_cons] at hst
   rcases hst with hst | hst
@@ -422,7 +423,7 @@ theorem stopOne_spec {c : Cfg} {now : Tick} {i : Inst} (h : InstInv c now i) {r 
           · rw [if_pos hm]
             exact ⟨hinv1, fun _ hx => hx, fun _ hw => hw, fun _ ht => ht, rfl⟩
           · simp only [hm, if_false]
-            refine ⟨hinv1.set_cancelled hprim hageb, fun x hx => (mem_set (i := i1) (r := .cancelled) (now := now)).mpr (Or.inl hx), ?_, ?_, rfl⟩
+            refine ⟨hinv1.set_cancelled hprim hageb (by simpa [atomsOf] using ht), fun x hx => (mem_set (i := i1) (r := .cancelled) (now := now)).mpr (Or.inl hx), ?_, ?_, rfl⟩
             · intro w hw; simp [set_when, hw]
             · intro t ht; simp [ht]
         obtain ⟨hinv2, hm2, hw2, hc2, ha2⟩ := hi2
@@ -824,8 +825,9 @@ theorem step_kBegin {c : Cfg} {s s' : St} {r : Reason} (hs : step c s (.kBegin r
   | some i =>
     rw [hrun] at hs
     simp only at hs
-    split at hs
-    · rename_i hc
+    by_cases hc : (s.known && !s.killerDone &&
+        ((r == .pausing && s.atRound) || r == .exiting)) = true
+    · rw [if_pos hc] at hs
       cases hs
       simp only [Bool.and_eq_true, Bool.or_eq_true, beq_iff_eq, Bool.not_eq_true'] at hc
       obtain ⟨⟨hk, hd⟩, hr⟩ := hc
@@ -835,11 +837,12 @@ theorem step_kBegin {c : Cfg} {s s' : St} {r : Reason} (hs : step c s (.kBegin r
         · exact Or.inr h1
       · intro hp
         rcases hr with ⟨_, h2⟩ | h1
-        · cases hpz : s.paused with
+        · unfold St.atRound at h2
+          cases hpz : s.paused with
           | none => rw [hpz] at h2; cases h2
           | some p => rw [hpz] at h2; exact ⟨p, rfl, h2⟩
         · rw [hp] at h1; cases h1
-    · cases hs
+    · rw [if_neg hc] at hs; cases hs
 
 theorem step_kSignal {c : Cfg} {s s' : St} {st : Tick} (hs : step c s (.kSignal st) = some s') :
     ∃ i, s.run = some i ∧ st ∈ i.kstarts ∧ s' = { s with run := some (i.set .signalled s.now) } := by
@@ -923,12 +926,12 @@ theorem step_inv {c : Cfg} {s s' : St} (h : Inv c s) (l : Label) (hs : step c s 
     have hne : i.reasons ≠ [] := hii.unflagged (by simp [hw])
     exact inst_update_inv h hi (hii.set_plain _ (by decide) (by decide) (Or.inr (hii.prim hne)))
   | kCancel st =>
-    obtain ⟨i, hi, hst, _, hle, h1⟩ := step_kCancel hs
+    obtain ⟨i, hi, hst, hto, hle, h1⟩ := step_kCancel hs
     subst h1
     have hii := h.inst i hi
     obtain ⟨w, hw, hws, _⟩ := hii.kst st hst
     have hne : i.reasons ≠ [] := hii.unflagged (by simp [hw])
-    refine inst_update_inv h hi (hii.set_cancelled (hii.prim hne) ?_)
+    refine inst_update_inv h hi (hii.set_cancelled (hii.prim hne) ?_ hto)
     intro w' hw'
     rw [hw] at hw'; cases hw'
     generalize c.b0 = bb at *
